@@ -44,5 +44,6 @@ print(' '.join(ids))" 2>/dev/null)
     VERIF_REPO="$WT" VERIF_EVIDENCE_DIR="$OUT/ev" VERIF_FOUND_DIR="$OUT/found" /verif/check $c >"$OUT/log.txt" 2>&1; rc=$?
     res="$res $c=$rc"
   done
+  if python3 -c "import json,sys; sys.exit(0 if json.load(open('$sd/meta.json')).get('not_claimed') else 1)" 2>/dev/null; then echo "$label: NOT-CLAIMED ($res ) - see meta.json"; continue; fi
   case "$res" in *=1*) echo "$label: CAUGHT ($res )$conf";; *=2*) echo "$label: INFRA ($res )$conf"; tail -3 "$OUT/log.txt";; *) echo "$label: MISSED ($res )$conf";; esac
 done
